@@ -179,6 +179,13 @@ func genCombinePair(r *hx.Rng) (fragSpec, fragSpec) {
 	v.video = true
 	a := genFragSpec(r, 30)
 	a.video = false
+	// combine-segs: only inputs that do not rely on trex defaults (the guard of the property text)
+	if v.defaults == 3 {
+		v.defaults = 2
+	}
+	if a.defaults == 3 {
+		a.defaults = 2
+	}
 	if r.Intn(10) == 0 {
 		v.samples = nil // an input fragment without samples
 	}
